@@ -1121,8 +1121,8 @@ class AnyFrom(__Class):
             else:
                 message = f"Argument \"{c}\" is neither a string nor a token."
                 raise _ex.InvalidArgumentTypeException(message)
-        chars = tuple((f"\\{c}" if c in __class__._to_escape else c) \
-            if isinstance(c, str) else str(c) for c in chars)
+        chars = tuple(str(c) for c in chars)
+        chars = tuple(f"\\{c}" if c in __class__._to_escape else c for c in chars)
         super().__init__(f"[{''.join(chars)}]", is_negated=False)
 
 
@@ -1164,8 +1164,8 @@ class AnyButFrom(__Class):
             else:
                 message = f"Argument \"{c}\" is neither a string nor a token."
                 raise _ex.InvalidArgumentTypeException(message)
-        chars = tuple((f"\{c}" if c in __class__._to_escape else c)
-            if isinstance(c, str) else str(c) for c in chars)
+        chars = tuple(str(c) for c in chars)
+        chars = tuple(f"\\{c}" if c in __class__._to_escape else c for c in chars)
         super().__init__(f"[^{''.join(chars)}]", is_negated=True)
 
 
